@@ -1,6 +1,9 @@
 package main
 
 import (
+	"go/types"
+	"strings"
+
 	"golang.org/x/tools/go/ssa"
 )
 
@@ -113,4 +116,68 @@ func (e *Engine) runesToString(st *State, s SliceV) Value {
 	}
 	o := e.alloc(st, "str(runes)", cells)
 	return StrV{obj: o, off: e.c64(0), len: pos}
+}
+
+// declineIntrinsic is returned by a model that only covers some argument shapes (e.g. concrete
+// strings): the call is then executed from the function's source.
+type declineIntrinsic struct{}
+
+
+// Concrete-argument models of strings functions whose source goes through strings.Builder
+// (unsafe.String): evaluated directly when every argument is a concrete string.
+func init() {
+	I := intrinsics
+	I["strings.ToLower"] = func(e *Engine, st *State, a []Value, in ssa.Instruction) Value {
+		s, ok := e.concreteString(st, a[0].(StrV))
+		if !ok {
+			return declineIntrinsic{}
+		}
+		return e.strConst(strings.ToLower(s))
+	}
+	I["strings.ToUpper"] = func(e *Engine, st *State, a []Value, in ssa.Instruction) Value {
+		s, ok := e.concreteString(st, a[0].(StrV))
+		if !ok {
+			return declineIntrinsic{}
+		}
+		return e.strConst(strings.ToUpper(s))
+	}
+	strSlice := func(e *Engine, st *State, parts []string) Value {
+		cells := make([]Value, 0, len(parts))
+		for _, p := range parts {
+			cells = append(cells, e.strConst(p))
+		}
+		o := e.alloc(st, "strings", cells)
+		n := e.c64(int64(len(parts)))
+		return SliceV{obj: o, off: e.c64(0), len: n, cap: n, elem: types.Typ[types.String]}
+	}
+	I["strings.Split"] = func(e *Engine, st *State, a []Value, in ssa.Instruction) Value {
+		s, ok1 := e.concreteString(st, a[0].(StrV))
+		sep, ok2 := e.concreteString(st, a[1].(StrV))
+		if !ok1 || !ok2 {
+			return declineIntrinsic{}
+		}
+		return strSlice(e, st, strings.Split(s, sep))
+	}
+	I["strings.Join"] = func(e *Engine, st *State, a []Value, in ssa.Instruction) Value {
+		sv := a[0].(SliceV)
+		sep, ok := e.concreteString(st, a[1].(StrV))
+		if !ok || !sv.len.IsConst() || !sv.off.IsConst() {
+			return declineIntrinsic{}
+		}
+		n := int(sv.len.ConstU())
+		parts := make([]string, n)
+		for i := 0; i < n; i++ {
+			cells := e.loadCells(st, sv.obj, e.ts.Add(sv.off, e.c64(int64(i))), 1)
+			str, isStr := cells[0].(StrV)
+			if !isStr {
+				return declineIntrinsic{}
+			}
+			p, okp := e.concreteString(st, str)
+			if !okp {
+				return declineIntrinsic{}
+			}
+			parts[i] = p
+		}
+		return e.strConst(strings.Join(parts, sep))
+	}
 }
